@@ -432,25 +432,6 @@ func (w *Watcher) Run(ctx context.Context) error {
 						expectedConfirmations = uint64(pLock.message.ConsistencyLevel)
 					}
 
-					// Transaction was dropped and never picked up again
-					if pLock.height+expectedConfirmations+w.maxWaitConfirmations <= blockNumberU {
-						logger.Info("observation timed out",
-							zap.Stringer("tx", pLock.message.TxHash),
-							zap.Stringer("blockhash", key.BlockHash),
-							zap.Stringer("emitter_address", key.EmitterAddress),
-							zap.Uint64("sequence", key.Sequence),
-							zap.Stringer("current_block", ev.Number),
-							zap.Bool("is_safe_block", ev.Safe),
-							zap.Stringer("current_blockhash", currentHash),
-							zap.String("eth_network", w.networkName),
-							zap.Uint64("expectedConfirmations", expectedConfirmations),
-							zap.Uint64("maxWaitConfirmations", w.maxWaitConfirmations),
-						)
-						ethMessagesOrphaned.WithLabelValues(w.networkName, "timeout").Inc()
-						delete(w.pending, key)
-						continue
-					}
-
 					// Transaction is now ready
 					if pLock.height+expectedConfirmations <= blockNumberU {
 						timeout, cancel := context.WithTimeout(ctx, 5*time.Second)
@@ -502,6 +483,27 @@ func (w *Watcher) Run(ctx context.Context) error {
 
 						// Any error other than "not found" is likely transient - we retry next block.
 						if err != nil {
+							// The receipt could not be fetched. Give up on the message only once the node has
+							// failed to confirm it for the whole abandonment window; a message whose receipt
+							// can be fetched is never abandoned, however far the head advanced since the last poll.
+							if pLock.height+expectedConfirmations+w.maxWaitConfirmations <= blockNumberU {
+								logger.Info("observation timed out",
+									zap.Stringer("tx", pLock.message.TxHash),
+									zap.Stringer("blockhash", key.BlockHash),
+									zap.Stringer("emitter_address", key.EmitterAddress),
+									zap.Uint64("sequence", key.Sequence),
+									zap.Stringer("current_block", ev.Number),
+									zap.Bool("is_safe_block", ev.Safe),
+									zap.Stringer("current_blockhash", currentHash),
+									zap.String("eth_network", w.networkName),
+									zap.Uint64("expectedConfirmations", expectedConfirmations),
+									zap.Uint64("maxWaitConfirmations", w.maxWaitConfirmations),
+								)
+								ethMessagesOrphaned.WithLabelValues(w.networkName, "timeout").Inc()
+								delete(w.pending, key)
+								continue
+							}
+
 							logger.Warn("transaction could not be fetched",
 								zap.Stringer("tx", pLock.message.TxHash),
 								zap.Stringer("blockhash", key.BlockHash),
